@@ -5,6 +5,7 @@ package bigbuff
 import (
 	"fmt"
 	"math/rand"
+	"reflect"
 	"runtime"
 	"sort"
 	"sync"
@@ -391,9 +392,10 @@ func exDone(c *exCallRec) bool {
 }
 
 func (env *exEnv) mapLen() int {
-	env.e.mutex.Lock()
-	n := len(env.e.work)
-	env.e.mutex.Unlock()
+	mu := fld[sync.Mutex](env.e, "mutex")
+	mu.Lock()
+	n := fldLen(env.e, "work", reflect.Map)
+	mu.Unlock()
 	return n
 }
 
